@@ -3,7 +3,7 @@
 (* C15 - string helpers.  Strings are sequences of byte codes; runes are   *)
 (* decoded from UTF-8 (1- and 2-byte sequences: all the driver's alphabet  *)
 (* contains).  Case mapping uses an explicit table for ASCII and the one   *)
-(* non-ASCII letter of the alphabet, o-umlaut (agreement with the full     *)
+(* non-ASCII letters of the alphabet (agreement with the full               *)
 (* Unicode database is outside what a TLA+ table can state).               *)
 (***************************************************************************)
 EXTENDS Fn
@@ -15,10 +15,17 @@ Runes(b) == IF b = <<>> THEN <<>>
 \* byte offsets at which a rune starts (0-based), for a valid string
 RuneStarts(b) == LET rs == Runes(b) IN { Len(Concat(SubSeq(rs, 1, i - 1))) : i \in DOMAIN rs }
 
+\* the table: ASCII; o-umlaut; the digraph DZ-with-caron U+01C4 / U+01C5 / U+01C6, whose TITLE case
+\* (U+01C5) differs from its UPPER case (U+01C4); Greek final sigma U+03C2, whose upper case U+03A3
+\* lower-cases to the non-final sigma U+03C3
 LowerR(r) == IF Len(r) = 1 /\ r[1] >= 65 /\ r[1] <= 90 THEN <<r[1] + 32>>
-             ELSE IF r = <<195, 150>> THEN <<195, 182>> ELSE r           \* O-umlaut -> o-umlaut
+             ELSE IF r = <<195, 150>> THEN <<195, 182>>                  \* O-umlaut -> o-umlaut
+             ELSE IF r \in {<<199, 132>>, <<199, 133>>} THEN <<199, 134>>
+             ELSE IF r = <<206, 163>> THEN <<207, 131>> ELSE r
 UpperR(r) == IF Len(r) = 1 /\ r[1] >= 97 /\ r[1] <= 122 THEN <<r[1] - 32>>
-             ELSE IF r = <<195, 182>> THEN <<195, 150>> ELSE r
+             ELSE IF r = <<195, 182>> THEN <<195, 150>>
+             ELSE IF r \in {<<199, 133>>, <<199, 134>>} THEN <<199, 132>>
+             ELSE IF r \in {<<207, 130>>, <<207, 131>>} THEN <<206, 163>> ELSE r
 Lower(b) == Concat([i \in DOMAIN Runes(b) |-> LowerR(Runes(b)[i])])
 Upper(b) == Concat([i \in DOMAIN Runes(b) |-> UpperR(Runes(b)[i])])
 Capital(b) == Concat([i \in DOMAIN Runes(b) |-> IF i = 1 THEN UpperR(Runes(b)[i]) ELSE LowerR(Runes(b)[i])])
